@@ -80,7 +80,7 @@ def body_contract(x):
     err_alt = f"(exists|e: S3Error| #[trigger] backend_err(OpId::{x}, e) && spec_serialize_error(e, false) == Ok::<http::Response, S3Error>(resp))"
     if x == "GetObject":
         hdr = (f"(exists|v: {T}, ov: HeaderMap| #[trigger] backend_ok(OpId::{x}, v) && #[trigger] hm_is(ov) && {x}::spec_ser(v.output) is Ok\n"
-               f"                && resp.headers == hm_merge_custom(hm_extend({x}::spec_ser(v.output)->Ok_0.headers, ov), v.headers))")
+               f"                && merge_ok(resp.headers, hm_extend({x}::spec_ser(v.output)->Ok_0.headers, ov), v.headers))")
     else:
         hdr = (f"(exists|v: {T}| #[trigger] backend_ok(OpId::{x}, v) && {x}::spec_ser(v.output) is Ok\n"
                f"                && resp.headers == hm_extend({x}::spec_ser(v.output)->Ok_0.headers, v.headers))")
